@@ -29,6 +29,9 @@ type c12stored struct {
 	retry    float64 // original Retry-After value (throttling, relative)
 	absolute bool
 	size     int
+	limitMB  float64 // max_cache_size_megabytes in force when it was stored
+	seq      uint64  // sequence number of the store
+	seen     bool    // replayed at least once: it was stored
 }
 
 func runC12(s *kernel.Sim) {
@@ -42,6 +45,8 @@ func runC12(s *kernel.Sim) {
 	concP := tp.Choose(4)
 	siteOn, density := lockSites(tp)
 	s.Knobs["plugin"] = map[bool]string{true: "response_based_throttling", false: "caching"}[throttling]
+	limitChanges := sizeRun && tp.Chance(1, 2)
+	s.Knobs["size_limit_changes"] = limitChanges
 	s.Knobs["ttl_s"], s.Knobs["size_run"], s.Knobs["absolute_retry_after"], s.Knobs["ops"], s.Knobs["lock_sites"] = ttlS, sizeRun, absolute, nOps, density
 
 	cl := clock.NewRealClock()
@@ -117,7 +122,7 @@ func runC12(s *kernel.Sim) {
 	doResponse := func(k key) {
 		n++
 		body := fmt.Sprintf("body-%d-%s", n, pads[tp.Choose(len(pads))])
-		st := &c12stored{key: keyStr(k), at: s.Now(), size: len(body)}
+		st := &c12stored{key: keyStr(k), at: s.Now(), size: len(body), limitMB: float64(cacheCfg.MaxCacheSizeMegabytes), seq: s.Seq()}
 		hdr := map[string]string{"X-N": fmt.Sprint(n)}
 		raName := "Retry-After" // as configured; sometimes in another letter case, as a proxy may hand it over
 		if throttling && tp.Chance(1, 4) {
@@ -185,6 +190,9 @@ func runC12(s *kernel.Sim) {
 		}
 		s.Nontrivial()
 		s.Rule("R1")
+		if st != nil {
+			st.seen = true
+		}
 		if st == nil || st.key != keyStr(k) {
 			was := "never stored"
 			if st != nil {
@@ -242,12 +250,46 @@ func runC12(s *kernel.Sim) {
 			}
 		}
 		s.State(fmt.Sprintf("bytes%dk", total/1024/100*100))
-		if !throttling && total > 1<<20 {
+		if !throttling && !limitChanges && total > 1<<20 {
 			s.Violate("R4", "cache-size-exceeded", "the entries currently replayed sum to %d body bytes, max_cache_size_megabytes is 1", total)
+		}
+		// with a size limit that changes between stores: an entry that was stored (it
+		// has been replayed) fitted, together with the stored entries of other keys
+		// that were alive at that instant, into the limit in force at its store
+		if limitChanges {
+			var seen []*c12stored
+			for _, b := range sortedKeys(stored) {
+				if stored[b].seen {
+					seen = append(seen, stored[b])
+				}
+			}
+			for _, e := range seen {
+				sum := e.size
+				perKey := map[string]int{} // one key holds one entry at a time: count the smallest candidate
+				for _, f := range seen {
+					if f.seq < e.seq && f.key != e.key && f.at+f.ttl > e.at {
+						if v, ok := perKey[f.key]; !ok || f.size < v {
+							perKey[f.key] = f.size
+						}
+					}
+				}
+				for _, v := range perKey {
+					sum += v
+				}
+				if float64(sum) > e.limitMB*(1<<20) {
+					s.Violate("R4", "stored-beyond-configured-size", "the response for %s (%d bytes) was stored at %v although it and the %d bytes of other entries alive then exceed max_cache_size_megabytes %.2f in force at that store", e.key, e.size, e.at, sum-e.size, e.limitMB)
+					break
+				}
+			}
 		}
 	}
 
 	for op := 0; op < nOps && !s.Failed(); op++ {
+		if limitChanges && tp.Chance(1, 4) { // the remedy is reloaded with another size limit
+			cacheCfg.MaxCacheSizeMegabytes = []float32{1, 0.5, 0.35, 0.1}[tp.Choose(4)]
+			s.Event("limit", fmt.Sprint(cacheCfg.MaxCacheSizeMegabytes))
+			s.FaultFired("cache_size_limit_changed")
+		}
 		now := s.Now()
 		targets := []time.Duration{now, now + time.Microsecond, now + time.Duration(1+tp.Choose(2000))*time.Millisecond}
 		cnt := 0
